@@ -25,6 +25,7 @@ def jObs16 (o : Obs16) (js : LJson) : LJson :=
   Lean.Json.mkObj [
     ("invalid", Lean.Json.bool false),
     ("schema", jRes jFields o.schema),
+    ("schema_safe", jRes jFields o.schemaSafe),
     ("ser", jRes jFields o.ser),
     ("probes", Lean.Json.arr (o.probes.map fun pr =>
         Lean.Json.arr #[Lean.Json.str pr.name, jTree pr.value, Lean.Json.bool pr.accepted]).toArray),
@@ -40,6 +41,7 @@ def parseObs16 (j : LJson) : Except String Obs16 := do
   return {
     invalid := false
     schema := ← parseRes parseFields (← j.getObjVal? "schema")
+    schemaSafe := ← parseRes parseFields (← j.getObjVal? "schema_safe")
     ser := ← parseRes parseFields (← j.getObjVal? "ser")
     probes := ← (← getArr j "probes").toList.mapM parseProbe
     allowNone := ← parseNamed (·.getBool?) (← j.getObjVal? "allow_none") }
